@@ -67,6 +67,15 @@ def ctor_strategy(invalid=True):
              ''.join(chr(c) for c in range(0x3b1, 0x3ca)) + string.digits, string.digits + '\xb2\xb3\xb9\u2070\u2460\u0663ab',
              string.ascii_lowercase + '\u017f\u0131\u212a\xb5', string.whitespace + '\x85\xa0\u2028\u1680\x1c', string.digits + string.ascii_letters + '_\u2126\xaa']
     big = st.tuples(st.sampled_from(pools), st.integers(0, 2 ** 30), st.integers(8, 100), st.booleans()).map(_big_args)
+    # the conventional alphabets themselves, whole or as a contiguous slice (hex digits in either case, base32/36/62/64, letters,
+    # digits+letters ...): sets that *look* like one run but cross the 9->A, Z->a, z->{ gaps
+    base = string.digits + string.ascii_uppercase + string.ascii_lowercase
+    conventional = [string.digits + 'ABCDEF', string.digits + 'abcdef', string.hexdigits, string.ascii_uppercase + '234567', base, string.digits + string.ascii_lowercase,
+                    string.digits + string.ascii_uppercase, string.ascii_letters, string.ascii_lowercase + string.ascii_uppercase, base + '+/', base + '-_',
+                    ''.join(chr(c) for c in range(0x30, 0x7b))]
+    sliced = st.tuples(st.sampled_from(conventional), st.integers(0, 70), st.integers(2, 70), st.booleans()).map(
+        lambda t: [['c', c] for c in (sorted(t[0][t[1] % len(t[0]):][:t[2]]) if t[3] else t[0][t[1] % len(t[0]):][:t[2]])])
+    big = st.one_of(big, big, sliced)
     return st.one_of(
         big.map(lambda xs: ['from', xs]), big.map(lambda xs: ['butfrom', xs]),
         clustered.map(lambda xs: ['from', xs]), clustered.map(lambda xs: ['butfrom', xs]),
